@@ -108,22 +108,26 @@ def run(ctx, R, tier):
                 why.append("reachable for an object name that does not match the expose pattern from its first character (re.match)")
             R.check(ok1 and ok2, "C20-R1", key, "dominated by the key gate and the expose-pattern gate", f.loc(c), "; ".join(why))
     # refusals answer 403 and return
-    n403 = 0
-    for n in cfg.nodes:
-        if n.kind == "test" and isinstance(n.ast, ast.If):
-            t = n.ast.test
-            is_key = any(key_matches(a, not pol) for a, pol in facts_of(t, True))
-            is_pat = any((no_pattern(a, not pol) is False) and isinstance(a, ast.Call) and dotted(a.func) in ("re.match", "re.search", "re.fullmatch") and pol is False
-                         for a, pol in facts_of(t, True))
-            if is_key or is_pat:
-                body = n.ast.body
-                sr = [x for st in body for x in walk_no_nested(st) if isinstance(x, ast.Call) and unparse(x.func) == "start_response"]
-                ok = bool(sr) and isinstance(sr[0].args[0], ast.Constant) and str(sr[0].args[0].value).startswith("403") and isinstance(body[-1], ast.Return)
-                n403 += 1
-                R.check(ok, "C20-R1", "refusal:%s" % ("key" if is_key else "pattern"), "the refusal edge answers 403 and returns", f.loc(n.ast),
-                        "the refusal branch does not answer 403 and return")
-    R.check(n403 >= 2, "C20-R1", "refusal:both-present", "both refusal branches (key, pattern) exist", f.loc(),
-            "only %d of the two refusal branches (wrong key -> 403, name outside the pattern -> 403) is left" % n403)
+    def key_mismatch(atom, pol):
+        return key_matches(atom, not pol) if isinstance(atom, ast.Compare) else False
+
+    def pat_mismatch(atom, pol):
+        return pol is False and isinstance(atom, ast.Call) and dotted(atom.func) in ("re.match", "re.search", "re.fullmatch")
+    kinds = set()
+    for c, _ in ctx.cg.calls_of(f):
+        if unparse(c.func) == "start_response" and c.args and isinstance(c.args[0], ast.Constant) and str(c.args[0].value).startswith("403"):
+            st = enclosing_stmt(c)
+            lst = getattr(st._parent, "body", []) if st in getattr(st._parent, "body", []) else getattr(st._parent, "orelse", [])
+            returns = bool(lst) and isinstance(lst[-1], ast.Return)
+            for n in ctx.node_of(f, c):
+                if cfg.guarded(n, lambda e: edge_has_fact(e, key_mismatch)):
+                    kinds.add("key")
+                    R.check(returns, "C20-R1", "refusal:key", "a wrong key is answered with 403 and the request ends there", f.loc(c), "the 403 branch does not return")
+                elif cfg.guarded(n, lambda e: edge_has_fact(e, pat_mismatch)):
+                    kinds.add("pattern")
+                    R.check(returns, "C20-R1", "refusal:pattern", "a name outside the pattern is answered with 403 and the request ends there", f.loc(c), "the 403 branch does not return")
+    R.check(kinds == {"key", "pattern"}, "C20-R1", "refusal:both-present", "both refusal branches (key, pattern) exist", f.loc(),
+            "refusal branches found: %s (wrong key -> 403 and name outside the pattern -> 403 are both required)" % sorted(kinds))
     hp = ctx.calls_to(f, GW + ".return_homepage")
 
     def empty_path(atom, pol):
